@@ -395,6 +395,9 @@ class _StickySink:
         """Register a session via the callback; stash the minted token for the response."""
         token = self._open_callback(state, ttl)
         self.mint_token = token
+        # The request now leaves a live session behind: a close earlier in this
+        # request must not make the client drop the token announced for it.
+        self.closed = False
         # _open_callback set _current_session_context — capture the new id
         # from there. We could equally have _open_callback return it, but
         # the contextvar is the single source of truth right after open.
@@ -407,6 +410,9 @@ class _StickySink:
         """Close the bound session via the callback; signal the response middleware."""
         self._close_callback()
         self.closed = True
+        # A token minted earlier in this request belongs to the session that was
+        # just closed: never announce it.
+        self.mint_token = None
 
 
 # ---------------------------------------------------------------------------
